@@ -5,6 +5,7 @@ package workers
 
 import (
 	"bufio"
+	"bytes"
 	"encoding/json"
 	"fmt"
 	"os"
@@ -128,6 +129,23 @@ func ServeIter(shard, nshards int, hang time.Duration, iter func(yield func(desc
 	w.Write(append(b, '\n'))
 }
 
+// frames condenses a Go crash report: its first lines, then every stack line that is not the runtime's own (the harness and
+// library frames say what was being done), up to max bytes.
+func frames(serr string, max int) string {
+	lines := strings.Split(serr, "\n")
+	var keep []string
+	for i, l := range lines {
+		if i < 6 || (strings.Contains(l, "/") && !strings.Contains(l, "/src/runtime/") && !strings.Contains(l, "/src/internal/runtime/")) || strings.HasPrefix(l, "goroutine ") {
+			keep = append(keep, l)
+		}
+	}
+	out := strings.Join(keep, "\n")
+	if len(out) > max {
+		out = out[:max]
+	}
+	return out
+}
+
 // Spawn is the parent side: starts the workers (`self <id> worker <tier> <i> <n>`),
 // aggregates outcomes, samples and violations into r. hangKey maps a hang report
 // to a violation key. It returns the number of cases executed.
@@ -145,22 +163,40 @@ func Spawn(r *ev.Run, id string, memKiB int, extraArgs ...string) (executed, tot
 	}
 	results := make([]wres, n)
 	var wg sync.WaitGroup
+	var restarts atomic.Int64
 	for i := 0; i < n; i++ {
 		wg.Add(1)
 		go func(i int) {
 			defer wg.Done()
 			args := strings.Join(extraArgs, " ")
-			cmd := exec.Command("bash", "-c", fmt.Sprintf("ulimit -v %d; exec %q %s worker %s %d %d %s", memKiB, self, id, r.Tier, i, n, args))
-			cmd.Env = append(os.Environ(), "GOMAXPROCS=1", "GOGC=50")
-			out, err := cmd.Output()
-			results[i].out, results[i].err = string(out), err
-			if ee, ok := err.(*exec.ExitError); ok {
-				results[i].code = ee.ExitCode()
-				results[i].serr = string(ee.Stderr)
+			// A worker is a deterministic, single-threaded replay of its shard: a worker that dies without a verdict (killed, out of
+			// address space under the cap while the machine is busy) is started once more. What the LIBRARY does to a worker - a
+			// blow-up on one of its cases - happens again on the second attempt and is then reported; a death that does not repeat
+			// was the environment's, and is counted in the evidence (worker_restarts).
+			for attempt := 0; attempt < 2; attempt++ {
+				cmd := exec.Command("bash", "-c", fmt.Sprintf("ulimit -v %d; exec %q %s worker %s %d %d %s", memKiB, self, id, r.Tier, i, n, args))
+				cmd.Env = append(os.Environ(), "GOMAXPROCS=1", "GOGC=50")
+				var serr bytes.Buffer
+				cmd.Stderr = &serr
+				out, err := cmd.Output()
+				results[i] = wres{out: string(out), err: err, serr: serr.String()}
+				if ee, ok := err.(*exec.ExitError); ok {
+					results[i].code = ee.ExitCode()
+				}
+				if err == nil || results[i].code == 3 || strings.Contains(string(out), `"summary":true`) {
+					break
+				}
+				if attempt == 0 {
+					restarts.Add(1)
+					fmt.Fprintf(os.Stderr, "worker %d of %s died without a verdict (%v); starting it once more. Its stderr began:\n%s\n", i, id, err, frames(serr.String(), 3000))
+				}
 			}
 		}(i)
 	}
 	wg.Wait()
+	if n := restarts.Load(); n > 0 {
+		r.Set("worker_restarts", n)
+	}
 	for i, wr := range results {
 		sawSummary, sawViolation := false, false
 		for _, l := range strings.Split(wr.out, "\n") {
@@ -187,10 +223,7 @@ func Spawn(r *ev.Run, id string, memKiB int, extraArgs ...string) (executed, tot
 			}
 		}
 		if !sawSummary && !(wr.code == 3 && sawViolation) {
-			tail := wr.serr
-			if len(tail) > 1500 {
-				tail = tail[:1500]
-			}
+			tail := frames(wr.serr, 4000)
 			key := "worker-died"
 			if strings.Contains(wr.serr, "out of memory") || strings.Contains(wr.serr, "cannot allocate") {
 				key = "worker-out-of-memory"
